@@ -380,7 +380,8 @@ def _result(module, cfg, out, wall, timed_out, rc, must_load=()):
         missing = [o for o in must_load if 'Loading %s operator override' % o not in out]
         if missing:
             out = 'Error: vacuity: the Java overrides %s were not loaded: the thin Rat.tla must not be used\n' % missing
-    ms = _STATES.findall(out)
+    ms = _STATES.findall(out) or re.findall(r'([\d,]+) states generated \(.*?\), ([\d,]+) distinct states found \(.*?\), ([\d,]+) states left', out)
+    ms = [tuple(x.replace(',', '') for x in m) for m in ms]
     return {'module': module, 'cfg': cfg, 'out': out, 'wall': wall, 'timed_out': timed_out, 'rc': rc,
             'generated': int(ms[-1][0]) if ms else 0, 'states': int(ms[-1][1]) if ms else 0,
             'ok': 'Model checking completed. No error has been found.' in out,
@@ -393,7 +394,8 @@ def _one(c, workers, timeout, root, cwd, must, reread):
     if reread:
         def rd(name):
             with open(os.path.join(reread, name + '.out')) as f:
-                return _result(module, cfg, f.read(), 0.0, False, 0)
+                o = f.read()
+            return _result(module, cfg, o, 0.0, 'Finished in' not in o and 'Error:' not in o, 0)
         return rd(cfg), (rd('VacProbe_' + cfg) if module in PROBED and expect == 'pass' else None)
     if expect == 'fail':
         return run_tlc(module, cfg, 2, timeout, root, cwd, must, coverage=False), None
@@ -432,8 +434,18 @@ def audit(tier='quick', only=None, skip=None, jobs=4, workers=4, timeout=900, ke
     bad, machinery, rows = [], [], []
     for (module, cfg, _t, expect), (r, pr) in res:
         if r['timed_out'] or (pr and pr['timed_out']):
-            machinery.append('%s: timed out after %ds' % (cfg, timeout))
-            rows.append((cfg, 0, r['wall'], 'TIMEOUT (not audited)'))
+            # the statistics TLC printed last (every minute) are a lower bound: what they show as exercised is exercised
+            try:
+                fs = findings_of(cfg, r['out'], MIN_STATES) if expect == 'pass' and not (pr and pr['timed_out']) else None
+            except ValueError:
+                fs = None
+            left = None if fs is None else [x for x in fs if not allowed(x, allow)]
+            if left == []:
+                rows.append((cfg, r['states'], r['wall'], 'TIMEOUT after %ds, but everything was exercised by then (%d dead, all allowed)' % (timeout, len(fs))))
+            else:
+                machinery.append('%s: timed out after %ds%s' % (cfg, timeout, '' if left is None else '; not exercised by then: ' + '; '.join(
+                    '%s %s %r' % (x['kind'], x['where'], x['expr']) for x in left[:8])))
+                rows.append((cfg, r['states'], r['wall'], 'TIMEOUT (inconclusive)'))
             continue
         if expect == 'fail':
             refuted = r['violated'] and not r['ok']
